@@ -261,13 +261,21 @@ pub fn one_case<R: Src>(r: &mut R, id: &str) -> Option<(IllCase, (String, String
                let s = items[rule_item].trim_end_matches(';').to_string();
                // the self reference sits directly in the body, behind a base case inside a disjunction, or after
                // another item of a disjunct (the depth guard must also hold across parenthesised disjunctions)
-               let form = r.below(3);
+               // ... or twice (the rejection must not depend on expanding both branches to the depth limit first)
+               let form = r.below(if op == "recursive_macro_self" { 7 } else { 6 });
                let wrap = |call: &str| match form {
                   0 => call.to_string(),
                   1 => format!("((if true) | {call})"),
-                  _ => format!("((if true) | (if true), {call})"),
+                  2 => format!("((if true) | (if true), {call})"),
+                  3 => format!("{call}, {call}"),
+                  4 => format!("({call}, {call})"),
+                  _ => format!("((if true) | {call}, {call})"),
                };
-               if op == "recursive_macro_self" {
+               if op == "recursive_macro_self" && form == 6 {
+                  // a head macro that invokes itself twice
+                  new_items.insert(n_decl, "macro selfh($x: ident) { selfh!($x), selfh!($x) }".into());
+                  new_items[rule_item + 1] = format!("selfh!({x}), {s};");
+               } else if op == "recursive_macro_self" {
                   new_items.insert(n_decl, format!("macro selfm($x: ident) {{ {} }}", wrap("selfm!($x)")));
                   new_items[rule_item + 1] = format!("{s}, selfm!({x});");
                } else {
@@ -275,7 +283,7 @@ pub fn one_case<R: Src>(r: &mut R, id: &str) -> Option<(IllCase, (String, String
                   new_items.insert(n_decl, "macro muta($x: ident) { mutb!($x) }".into());
                   new_items[rule_item + 2] = format!("{s}, muta!({x});");
                }
-               site = format!("{site}:{}", ["direct", "in_disjunction", "after_item_in_disjunct"][form]);
+               site = format!("{site}:{}", ["direct", "in_disjunction", "after_item_in_disjunct", "twice", "twice_parenthesised", "twice_in_disjunct", "head_twice"][form]);
                true
             },
          },
